@@ -124,6 +124,21 @@ def project(fig, path, names, all_axes=False):
     P["afs"] = round(float(ax0.texts[0].get_fontsize()), 3) if ax0.texts else None
     nums = [len(t.get_text().split()) for t in ax0.texts]
     P["annotationfields"] = (nums[0] if nums and all(n == nums[0] for n in nums) else (tuple(nums) if nums else None))
+    # with two fields: which comes first -- the key (the point's x value) or the score (its y value)?
+    if P["annotationfields"] == 2:
+        def near(tok, v):
+            try:
+                return abs(float(tok) - v) <= 1e-3 * max(1.0, abs(v))
+            except ValueError:
+                return False
+        orders = set()
+        for t in ax0.texts:
+            a, b = t.get_text().split()
+            x, y = t.get_position()
+            ks, sk = near(a, x) and near(b, y), near(a, y) and near(b, x)
+            orders.add("key,score" if ks and not sk else ("score,key" if sk and not ks else ("either" if ks and sk else "?")))
+        orders.discard("either")
+        P["annotationfields"] = "2:" + (orders.pop() if len(orders) == 1 else ("either" if not orders else "?"))
     labels = [l.get_label() for l in ax0.get_lines()]
     P["obsleg"] = tuple(lb for lb in labels if not lb.startswith("_") and lb not in names and lb != "ideal")
     # colour scale (map view): label of the colour bars, limits of the coloured point sets
@@ -204,6 +219,8 @@ def owned_ok(prop, expected, P, P0):
             e = tuple(expected.split("|"))
             return None if got == e else "%s: expected %r, axis shows %r" % (prop, e, got)
         if prop == "annotationfields":
+            if ":" in str(expected):      # "2:key,score": two numbers per annotation, in the order the fields were given
+                return None if got in (expected, "2:either") else "-af: expected the fields %s in that order, annotations read %r" % (expected, got)
             return None if got == int(expected) else "-af: expected %s numbers per annotation, annotations have %r" % (expected, got)
         if prop == "obsleg":
             return None if got is not None and expected in got else "-obsleg: expected an observation series labelled %r, labels are %r" % (expected, got)
